@@ -543,3 +543,12 @@ Example C19_get_json_code_nonvacuous :
   fn_getJson gstate0 (file_schedule (s "{""a"":""x\\""}{""b"":""y""}")) =
     Ret ((s "{""a"":""x\\""}", None), file_schedule (s "{""b"":""y""}")).
 Proof. vm_compute. reflexivity. Qed.
+
+(* ---- tie to the CURRENT source of Map.Copy (mxj.go): Json() followed by NewMapJson (GenProofs/PureG13.v) - the
+   composition the Copy theorems above are stated with *)
+From Mxj Require Import GenProofs.PureG5 GenProofs.PureG13.
+
+Theorem C19_copy_code : forall (Json : entries -> list bool -> res str) (NewMapJson : str -> res entries) st mv,
+  fn_Copy Json NewMapJson st mv = of_res (bind (Json mv []) NewMapJson).
+Proof. exact copy_code. Qed.
+Print Assumptions C19_copy_code.
